@@ -125,6 +125,8 @@ package pebbledb
 
 //@ func (*PebbleScanner).ScanTopologyWithSnapshot
 //@   noframe
+//@   protocol-only C10 C11
+//@   deterministic
 //@   include lockproto
 //@   include snapshotproto
 
@@ -154,3 +156,8 @@ package pebbledb
 //@   noframe
 //@   call (*github.com/cockroachdb/pebble.Batch).Commit assert [C07.sync] a1 == pebble.Sync
 //@   ensures [C07.sync] true
+
+// ---- C10: alert lists are produced in index order and sorted; nothing depends on map iteration order
+//@ func (*PebbleScanner).ScanTopologyWithSnapshot$2
+//@   requires 0 <= i && i < len(*results) && 0 <= j && j < len(*results)
+//@   ensures result == ((*results)[i].Confidence > (*results)[j].Confidence)
